@@ -1,0 +1,43 @@
+// Verification hook, compiled only under `--cfg substrate_fixed_verif`.
+//
+// A thread-local iteration counter for the loops of `transcendental`, with a
+// hard limit so that a check of "bounded work" cannot itself hang.
+
+extern crate std;
+
+use std::cell::Cell;
+
+/// Message of the panic raised when the iteration limit is exceeded.
+pub const LIMIT_MARKER: &str = "substrate_fixed_verif: loop iteration limit exceeded";
+
+std::thread_local! {
+    static COUNT: Cell<u64> = Cell::new(0);
+    static LIMIT: Cell<u64> = Cell::new(u64::MAX);
+}
+
+/// Resets the counter to zero.
+pub fn reset() {
+    COUNT.with(|c| c.set(0));
+}
+
+/// Number of loop iterations since the last `reset`.
+pub fn read() -> u64 {
+    COUNT.with(|c| c.get())
+}
+
+/// Sets the limit above which `tick` panics with `LIMIT_MARKER` (`u64::MAX` disables it).
+pub fn set_limit(limit: u64) {
+    LIMIT.with(|l| l.set(limit));
+}
+
+#[inline]
+pub(crate) fn tick() {
+    let n = COUNT.with(|c| {
+        let n = c.get() + 1;
+        c.set(n);
+        n
+    });
+    if n > LIMIT.with(|l| l.get()) {
+        panic!("{}", LIMIT_MARKER);
+    }
+}
